@@ -1110,6 +1110,29 @@ pub fn units() -> Vec<Unit> {
             TraitFn("AsRef", "RadioBuffer", "as_ref"),
         ],
     },
+    // `get_rx_payload` of the SX126x driver in the I/O mode: the caller's `&mut [u8]` receive buffer is passed by value
+    // and handed back (a read of n bytes INTO `receiving_buffer[..n]`: `Rt.slice` + write-back)
+    Unit {
+        module: "Gen.PhyRxFn126",
+        file: "lora-phy/src/sx126x/mod.rs",
+        more_files: vec!["lora-phy/src/sx126x/variant.rs", "lora-phy/src/sx126x/radio_kind_params.rs", "lora-phy/src/mod_params.rs", "lora-modulation/src/lib.rs"],
+        imports: vec!["LoraVerif.RtPhy", "LoraVerif.Gen.PhyCodes126", "LoraVerif.Gen.PhyArith", "LoraVerif.Gen.PhyErr"],
+        items: vec![
+            ExternUnit("Gen.PhyCodes126"),
+            ExternUnit("Gen.PhyArith"),
+            ExternUnit("Gen.PhyErr"),
+            Enum("OpStatusErrorMask"),
+            Fn("OpStatusErrorMask::is_error"),
+            Struct("PacketParams"),
+            Struct("Sx1262"),
+            Alias("C", "Sx1262"),
+            Struct("Config"),
+            StructPartial("Sx126x", &["config"]),
+            IoMode(true),
+            TraitFn("RadioKind", "Sx126x", "get_rx_payload"),
+            IoMode(false),
+        ],
+    },
     ]
 }
 
